@@ -357,8 +357,9 @@ def r_feeder(e, R):
                 and isinstance(n.ast.targets[0].value, ast.Name) and n.ast.targets[0].value.id == st.params[0] and isinstance(n.ast.value, ast.Call)):
             return False
         c = n.ast.value
-        return norm(c.func).endswith("Finalize") and len(c.args) >= 3 and norm(c.args[1]).endswith("_finalize_close") and isinstance(c.args[2], (ast.List, ast.Tuple)) \
-            and [norm(x) for x in c.args[2].elts] == [f"{st.params[0]}._buffer", f"{st.params[0]}._notempty"]
+        a2 = c.args[2] if len(c.args) >= 3 else next((k.value for k in c.keywords if k.arg == "args"), None)
+        return norm(c.func).endswith("Finalize") and len(c.args) >= 2 and norm(c.args[1]).endswith("_finalize_close") and isinstance(a2, (ast.List, ast.Tuple)) \
+            and [norm(x) for x in a2.elts] == [f"{st.params[0]}._buffer", f"{st.params[0]}._notempty"]
     R.check(sg.escape_path(sg.entry, close_fin, use_exc=False) is None and any(close_fin(n) for n in sg.nodes), "R-FEEDER",
             "Queue._start_thread: stores the closing finaliser (sentinel to the buffer) that the inherited close() calls", st.short,
             "self._close = Finalize(self, Queue._finalize_close, [self._buffer, self._notempty])",
